@@ -358,6 +358,16 @@ let fault_analysis kind (w : world) (o : op) =
 
 let sched_ops : (int, op list) Hashtbl.t = Hashtbl.create 4
 let tracing = ref false
+let dls_on = ref false
+let cur_dls = ref dls0
+let pr_dls (l : dls) =
+  let keys = Hashtbl.fold (fun k v acc -> (k, v) :: acc) universe [] in
+  let keys = List.sort (fun (a, _) (b, _) -> cmp_dec a b) keys in
+  let tag b = let s = ostring_of_bytes b in Printf.sprintf "F%d.%08x" (Stdlib.String.length s) (fnv s) in
+  let items = List.concat_map (fun (k, v) ->
+      (match l.dl_file v with None -> [] | Some b -> [k ^ ":" ^ tag b]) @
+      (match l.dl_full v with None -> [] | Some (FBytes b) -> [k ^ "f:" ^ tag b] | Some FPartial -> [k ^ "f:?"])) keys in
+  Stdlib.String.concat "," items
 
 (* ---------- main loop: one file may contain many histories ---------- *)
 let () =
@@ -372,7 +382,7 @@ let () =
        | [] -> ()
        | t :: _ when t.[0] = '#' -> ()
        | ["history"; name] ->
-           w := world0; idx := 0;
+           w := world0; idx := 0; cur_dls := dls0;
            Hashtbl.reset snaps_pj; Hashtbl.reset snaps_sj; Hashtbl.reset universe;
            Printf.printf "history %s\n" name
        | ["blob"; name; hex] -> Hashtbl.replace blobs name (if hex = "e" then "" else unhex_o hex)
@@ -381,6 +391,7 @@ let () =
        | ["base"; b] -> base_blob := blob_tok b
        | ["num"; n] -> ignore (num_tok n)
        | ["trace"; "on"] -> tracing := true
+       | ["dls"; v] -> dls_on := (v = "on")
        | ["stall"; _] -> ()
        | t :: "op" :: rest when Stdlib.String.length t = 2 && t.[0] = 't' ->
            let i = Char.code t.[1] - 48 in
@@ -425,6 +436,7 @@ let () =
            end;
            let acts = if !tracing then world_actions sha sigok zdec (bytes_of_ostring !base_blob) !w o else [] in
            let ((w', x), l) = step sha sigok zdec (bytes_of_ostring !base_blob) !w o in
+           cur_dls := dl_step zdec (bytes_of_ostring !base_blob) !w o x l !cur_dls;
            let x = if drop_out then RUnit else x in
            w := w';
            incr idx;
@@ -436,7 +448,9 @@ let () =
              let a = (match o with OKill | ODamage _ -> "-"
                                  | _ -> Stdlib.String.concat "," (List.concat_map tok acts)) in
              print_endline (pr_line x w' l ^ " act=" ^ a)
-           end else
+           end else if !dls_on then
+           print_endline (pr_line x w' l ^ " dls=" ^ pr_dls !cur_dls)
+           else
            print_endline (pr_line x w' l)
        | ["applypatch"; o; p] ->
            (match apply_patch (bytes_of_ostring (blob_tok o)) (bytes_of_ostring (blob_tok p)) with
